@@ -155,6 +155,10 @@ func genC11Sess(t *rapid.T) *C11SessCase {
 func checkC11Sess(c *C11SessCase, rec *evid.Rec) (vs []pbt.Violation) {
 	done := pbt.Watch("C11", "TestC11Session", c)
 	defer done()
+	// a failure on a library goroutine can kill the process (a panic there, or a runtime fatal error such as
+	// unlocking an unlocked mutex, which no recover catches): the case is written down before it runs
+	pbt.PreRecord("C11", "TestC11Session", c)
+	defer pbt.ClearRecord()
 	tr := rig.RunDirect(outerT, c.Cfg, c.Steps, nil, c.MaxHB)
 	if tr.Trouble != "" {
 		return []pbt.Violation{pbt.V("harness", "%s", tr.Trouble)}
